@@ -24,6 +24,11 @@ def run(ctx, rep):
     check_line_height(prog, rep)
     check_target_independence(prog, rep)
     try:
+        font_siblings(prog, rep)
+    except Exception as e:
+        import traceback; traceback.print_exc()
+        rep.fail("R15.7", "engine", "font sibling analysis crashed: %r" % (e,), status="undecided")
+    try:
         from rules.builders import check_builder
         n = check_builder(prog, rep, "R15.6", "embedded_graphics::text::text_style::TextStyleBuilder", "embedded_graphics::text::text_style::TextStyle")
         rep.floor("R15.6", "TextStyleBuilder methods", n, 4)
@@ -335,3 +340,33 @@ def check_target_independence(prog, rep):
                     bad.append("which position is returned depends on the target: %s" % show_fact(fct)[:200])
         rep.check(not bad and n >= 1, "R15.5", "target-independent:" + nm,
                   "%s must return the position measure_string predicts whatever the target is: %s" % (nm, "; ".join(sorted(set(bad))[:2]) or "no successful path found"), at=f.span, fn=f.path, detail={"paths": n})
+
+
+def font_siblings(prog, rep):
+    """R15.7 sibling agreement over the 292 font constants: one font (FONT_9X15, ..) exists once per glyph subset (ascii,
+    iso_8859_*, jis_x0201); the subsets differ in their glyph images and mappings only, so all constants of one name carry
+    the same metrics — character size, spacing, baseline, underline and strikethrough geometry.  Text in the alphabetic
+    baseline, the advance and the decorations of "the same font" must not depend on the subset it was taken from."""
+    import collections
+    from rules.c14 import font_table, font_fields
+    groups = collections.defaultdict(lambda: collections.defaultdict(list))
+    anyf = {}
+    for f, v in font_table(prog):
+        try:
+            d = font_fields(v)
+        except Exception:
+            continue
+        nm, mod = f.path.split("::")[-1], f.path.split("::")[-2]
+        key = (str(d.get("char")), d.get("baseline"), d.get("spacing"), str(d.get("under")), str(d.get("strike")))
+        groups[nm][key].append(mod)
+        anyf[(nm, mod)] = f
+    rep.floor("R15.7", "font names", len(groups), 20)
+    for nm, vs in sorted(groups.items()):
+        if len(vs) == 1:
+            rep.ok("R15.7", "font-siblings:" + nm, detail={"subsets": sum(len(m) for m in vs.values())}, nontrivial=False)
+            continue
+        major = max(vs.items(), key=lambda kv: len(kv[1]))
+        odd = [(k, m) for k, m in vs.items() if k != major[0]]
+        f = anyf[(nm, odd[0][1][0])]
+        rep.fail("R15.7", "font-siblings:" + nm, "%s has (size, baseline, spacing, underline, strikethrough) = %s in %d subsets but %s in %s" % (nm, major[0], len(major[1]), odd[0][0], ", ".join(odd[0][1][:3])),
+                 at=f.span, fn=f.path)
